@@ -70,13 +70,13 @@ def make_case(args):
             E[i, int(np.where(np.asarray(dirs) == 30.0)[0][0])] = 2.0 * w
             E[i, int(np.where(np.asarray(dirs) == 270.0)[0][0])] = 1.0 * w
         kind = "dm_cardinal"
-    if mode == "scale" and nf >= 4 and rng.random() < 0.2:
+    if mode == "scale" and nf >= 4 and rng.random() < 0.4:
         if rng.random() < 0.5:
             # a very broad peak: the maximum exceeds its neighbours by a few parts in 1e8 (far above float64 rounding, so the
             # peak bin — and every period and shape parameter — is the same at every energy level)
             ip = rng.randrange(1, nf - 1)
             prof = np.array([1.0 / (1.0 + 0.5 * abs(i - ip)) for i in range(nf)])
-            prof[ip - 1] = prof[ip + 1] = prof[ip] * (1 - rng.choice([5e-8, 2e-7]))
+            prof[ip - 1] = prof[ip + 1] = prof[ip] * (1 - rng.choice([3e-8, 5e-8, 7e-8]))
             w = np.array([1.0 + 0.5 * math.cos(2 * PI * j / nd) for j in range(nd)])
             E = prof[:, None] * w[None, :]
             kind, dtype = "broad_peak", "float64"
